@@ -459,10 +459,13 @@ writeloop:
 				}
 			}
 
-			if isOpenRoot {
-				// Always move into root.
-				i.addNext = 0
+			if !isOpenRoot {
+				// The closing tag of a root this iterator was created inside of
+				// (the iterator ParsedJson.ForEach hands out): its scope ends here.
+				break writeloop
 			}
+			// Always move into root.
+			i.addNext = 0
 			i.AdvanceInto()
 			stack = append(stack, stackRoot)
 			continue
